@@ -293,3 +293,210 @@ package storage
 //@   modifies nothing
 //@   ensures @size o.PageSize == (ps > 0 ? ps : storage.DefaultPageSize)
 //@   ensures @from o.From == contToken
+
+// ------------------------------------------------------------------ C23: static iterator and concatenation (generic adapters, by instantiation)
+// static iterator: Next yields the first remaining item and drops exactly it; Head yields it and drops nothing; an empty
+// iterator reports ErrIteratorDone; a context that reported cancellation yields no item and changes nothing (the
+// "yields" clauses are stated for runs in which ctx.Err() never returned an error: the code calls it twice and the
+// verifier does not assume the two answers agree)
+//@ func (*StaticIterator[*v1.Tuple]).Next(s, ctx) (res, err)
+//@   property C23
+//@   option nosafety
+//@   option safety slice,index
+//@   option defer_neutral
+//@   requires s != nil && s.mu != nil
+//@   monitor ctx
+//@     ghost cancelled = false
+//@     after call context.Context.Err returning e : cancelled = cancelled || e != nil
+//@   ensures @yieldsFirst err == nil && !cancelled ==> old(len(s.items)) >= 1 && res == old(s.items[0]) && len(s.items) == old(len(s.items)) - 1 && (forall j int :: 0 <= j && j < len(s.items) ==> s.items[j] == old(s.items[j + 1]))
+//@   ensures @doneWhenEmpty err == nil || res == nil
+//@   ensures @untouchedOnError err != nil ==> len(s.items) == old(len(s.items)) && (forall j int :: 0 <= j && j < len(s.items) ==> s.items[j] == old(s.items[j]))
+
+//@ func (*StaticIterator[*v1.Tuple]).Head(s, ctx) (res, err)
+//@   property C23
+//@   option nosafety
+//@   option safety slice,index
+//@   option defer_neutral
+//@   requires s != nil && s.mu != nil
+//@   monitor ctx
+//@     ghost cancelled = false
+//@     after call context.Context.Err returning e : cancelled = cancelled || e != nil
+//@   ensures @yieldsFirst err == nil && !cancelled ==> old(len(s.items)) >= 1 && res == old(s.items[0])
+//@   ensures @keepsAll len(s.items) == old(len(s.items)) && (forall j int :: 0 <= j && j < len(s.items) ==> s.items[j] == old(s.items[j]))
+//@   ensures @doneWhenEmpty err == nil || res == nil
+
+//@ func (*StaticIterator[*v1.TupleKey]).Next(s, ctx) (res, err)
+//@   property C23
+//@   option nosafety
+//@   option safety slice,index
+//@   option defer_neutral
+//@   requires s != nil && s.mu != nil
+//@   monitor ctx
+//@     ghost cancelled = false
+//@     after call context.Context.Err returning e : cancelled = cancelled || e != nil
+//@   ensures @yieldsFirst err == nil && !cancelled ==> old(len(s.items)) >= 1 && res == old(s.items[0]) && len(s.items) == old(len(s.items)) - 1 && (forall j int :: 0 <= j && j < len(s.items) ==> s.items[j] == old(s.items[j + 1]))
+//@   ensures @doneWhenEmpty err == nil || res == nil
+
+//@ func (*StaticIterator[*v1.TupleKey]).Head(s, ctx) (res, err)
+//@   property C23
+//@   option nosafety
+//@   option safety slice,index
+//@   option defer_neutral
+//@   requires s != nil && s.mu != nil
+//@   monitor ctx
+//@     ghost cancelled = false
+//@     after call context.Context.Err returning e : cancelled = cancelled || e != nil
+//@   ensures @yieldsFirst err == nil && !cancelled ==> old(len(s.items)) >= 1 && res == old(s.items[0])
+//@   ensures @keepsAll len(s.items) == old(len(s.items)) && (forall j int :: 0 <= j && j < len(s.items) ==> s.items[j] == old(s.items[j]))
+
+// concatenation: the element yielded is the one the FIRST pending source yielded; a source is dropped (and stopped) only
+// after it reported ErrIteratorDone, and then the answer is that of the rest (the recursive call); any other error of
+// the first source is passed through with nothing dropped
+//@ func (*combinedIterator[*v1.Tuple]).Next(c, ctx) (res, err)
+//@   property C23
+//@   option needs_pkg pkg/storage/storagewrappers
+//@   option nosafety
+//@   option safety slice,index
+//@   option stable c
+//@   requires c != nil && c.mu != nil
+//@   ensures @fromFirstOrRest (recursed ==> res == recRes && err == recErr) && (!recursed && err == nil ==> asked && innerErr == nil && res == innerVal)
+//@   ensures @emptyIsDone old(len(c.pending)) == 0 ==> err != nil && !asked
+//@   ensures @errorPassThrough !recursed && asked && innerErr != nil ==> err == innerErr && len(c.pending) == old(len(c.pending))
+//@   monitor concat
+//@     ghost asked = false
+//@     ghost first iface = nil
+//@     ghost innerVal *openfgav1.Tuple = nil
+//@     ghost innerErr error = nil
+//@     ghost recursed = false
+//@     ghost recRes *openfgav1.Tuple = nil
+//@     ghost recErr error = nil
+//@     before call storage.Iterator.Next | storage.TupleIterator.Next args it : assert !asked && len(c.pending) >= 1 && it == c.pending[0]
+//@     after call storage.Iterator.Next | storage.TupleIterator.Next args it returning x, e : asked = true ; first = it ; innerVal = x ; innerErr = e
+//@     before call storage.Iterator.Stop | storage.TupleIterator.Stop args it : assert asked && it == first && errIs(innerErr, storage.ErrIteratorDone)
+//@     before call (*storage.combinedIterator[*v1.Tuple]).Next | (*storage.combinedIterator*).Next args cc : assert cc == c && asked && errIs(innerErr, storage.ErrIteratorDone)
+//@     after call (*storage.combinedIterator[*v1.Tuple]).Next | (*storage.combinedIterator*).Next returning x, e : recursed = true ; recRes = x ; recErr = e
+
+//@ func (*combinedIterator[*v1.Tuple]).Head(c, ctx) (res, err)
+//@   property C23
+//@   option needs_pkg pkg/storage/storagewrappers
+//@   option nosafety
+//@   option safety slice,index
+//@   option stable c
+//@   requires c != nil && c.mu != nil
+//@   ensures @fromFirstOrRest (recursed ==> res == recRes && err == recErr) && (!recursed && err == nil ==> asked && innerErr == nil && res == innerVal)
+//@   ensures @emptyIsDone old(len(c.pending)) == 0 ==> err != nil && !asked
+//@   monitor concat
+//@     ghost asked = false
+//@     ghost first iface = nil
+//@     ghost innerVal *openfgav1.Tuple = nil
+//@     ghost innerErr error = nil
+//@     ghost recursed = false
+//@     ghost recRes *openfgav1.Tuple = nil
+//@     ghost recErr error = nil
+//@     before call storage.Iterator.Head | storage.TupleIterator.Head args it : assert !asked && len(c.pending) >= 1 && it == c.pending[0]
+//@     after call storage.Iterator.Head | storage.TupleIterator.Head args it returning x, e : asked = true ; first = it ; innerVal = x ; innerErr = e
+//@     before call storage.Iterator.Stop | storage.TupleIterator.Stop args it : assert asked && it == first && errIs(innerErr, storage.ErrIteratorDone)
+//@     before call (*storage.combinedIterator[*v1.Tuple]).Head | (*storage.combinedIterator*).Head args cc : assert cc == c && asked && errIs(innerErr, storage.ErrIteratorDone)
+//@     after call (*storage.combinedIterator[*v1.Tuple]).Head | (*storage.combinedIterator*).Head returning x, e : recursed = true ; recRes = x ; recErr = e
+
+// ordered merge, selection step: head() returns the index of a source whose current head has the SMALLEST sort key
+// among all sources that still have a head (hk[j] is the key of source j's head as last read in this call, alive[j]
+// whether source j still has one); it reports ErrIteratorDone only when no source has a head. Together with the Next
+// contract above (the element yielded is the selected source's next) this is "ordered merges stay sorted".
+// Assumed: the mapper is a function of the tuple (effects list, `function field:mapper`). Stated for runs in which
+// every source returned a tuple whenever it reported no error (ghost wb): the code's "no minimum yet" test is
+// headMin == nil.
+//@ func (*OrderedCombinedIterator).head(c, ctx) (r, err)
+//@   property C23
+//@   option nosafety
+//@   option stable c
+//@   loop 0 invariant $idx < n && (wb ==> (minIdx == -1 <==> headMin == nil) && (minIdx != -1 ==> 0 <= minIdx && minIdx <= $idx && alive[minIdx] && hk[minIdx] == ufString("field:mapper", c.mapper, headMin)) && (forall j int :: 0 <= j && j <= $idx && alive[j] ==> minIdx != -1 && hk[minIdx] <= hk[j]))
+//@   loop 1 invariant pendingIdx < n && (wb ==> (minIdx == -1 <==> headMin == nil) && (minIdx != -1 ==> 0 <= minIdx && minIdx < pendingIdx && alive[minIdx] && hk[minIdx] == ufString("field:mapper", c.mapper, headMin)) && (forall j int :: 0 <= j && j < pendingIdx && alive[j] ==> minIdx != -1 && hk[minIdx] <= hk[j]) && alive[pendingIdx] && head != nil && hk[pendingIdx] == ufString("field:mapper", c.mapper, head))
+//@   ensures @smallestHead err == nil && wb ==> 0 <= r && r < n && alive[r] && (forall j int :: 0 <= j && j < n && alive[j] ==> hk[r] <= hk[j])
+//@   ensures @doneOnlyWhenNoHead r == -1 && err == storage.ErrIteratorDone && wb ==> (forall j int :: 0 <= j && j < n ==> !alive[j])
+//@   monitor heads
+//@     ghost hk intmap_string = hk
+//@     ghost alive intmap_bool = alive
+//@     ghost n int = 0
+//@     ghost wb = true
+//@     after call (*storage.OrderedCombinedIterator).clearPendingThatAreNil : n = len(c.pending)
+//@     after call storage.TupleIterator.Head | storage.Iterator.Head returning h, e : alive = upd(alive, pendingIdx, e == nil) ; hk = upd(hk, pendingIdx, ufString("field:mapper", c.mapper, h)) ; wb = wb && (e != nil || h != nil)
+//@     after call storage.TupleIterator.Next | storage.Iterator.Next returning x, e : alive = upd(alive, pendingIdx, e == nil && alive[pendingIdx])
+
+// ------------------------------------------------------------------ C20 / C23: Stop reaches the wrapped iterator
+// the adapters are built over exactly the iterator given; Stop hands a closure to the adapter's own sync.Once and that
+// closure stops exactly the wrapped iterator (so stopping the outermost adapter of a chain releases the datastore
+// iterator at its bottom); the ordered merge and the concatenation stop every pending source
+//@ func NewTupleKeyIteratorFromTupleIterator(iter) (r)
+//@   property C20 C23
+//@   option nosafety
+//@   ensures @wraps typeIs(r, "*storage.tupleKeyIterator") && as(r, "*storage.tupleKeyIterator") != nil && as(r, "*storage.tupleKeyIterator").iter == iter && as(r, "*storage.tupleKeyIterator").once != nil
+
+//@ func NewFilteredTupleKeyIterator(iter, filter) (r)
+//@   property C20 C23
+//@   option nosafety
+//@   ensures @wraps typeIs(r, "*storage.filteredTupleKeyIterator") && as(r, "*storage.filteredTupleKeyIterator") != nil && as(r, "*storage.filteredTupleKeyIterator").iter == iter && as(r, "*storage.filteredTupleKeyIterator").filter == filter && as(r, "*storage.filteredTupleKeyIterator").once != nil
+
+//@ func NewConditionsFilteredTupleKeyIterator(iter, filter) (r)
+//@   property C20 C23
+//@   option nosafety
+//@   ensures @wraps typeIs(r, "*storage.ConditionsFilteredTupleKeyIterator") && as(r, "*storage.ConditionsFilteredTupleKeyIterator") != nil && as(r, "*storage.ConditionsFilteredTupleKeyIterator").iter == iter && as(r, "*storage.ConditionsFilteredTupleKeyIterator").filter == filter && as(r, "*storage.ConditionsFilteredTupleKeyIterator").once != nil
+
+//@ func (*tupleKeyIterator).Stop(t)
+//@   property C20 C23
+//@   option nosafety
+//@   ensures @once handed
+//@   monitor once
+//@     ghost handed = false
+//@     after call (*sync.Once).Do args o, f : handed = pre(o == t.once) && closureOf(f, "Stop$1") && closureBinds(f, 0, addrOf(t))
+
+//@ func (*tupleKeyIterator).Stop$1()
+//@   property C20 C23
+//@   option nosafety
+//@   ensures @stopsInner stopped
+//@   monitor inner
+//@     ghost stopped = false
+//@     before call storage.Iterator.Stop | storage.TupleIterator.Stop args it : assert it == deref(t).iter
+//@     after call storage.Iterator.Stop | storage.TupleIterator.Stop : stopped = true
+
+//@ func (*filteredTupleKeyIterator).Stop(f)
+//@   property C20 C23
+//@   option nosafety
+//@   ensures @once handed
+//@   monitor once
+//@     ghost handed = false
+//@     after call (*sync.Once).Do args o, fn : handed = pre(o == f.once) && closureOf(fn, "Stop$1") && closureBinds(fn, 0, addrOf(f))
+
+//@ func (*filteredTupleKeyIterator).Stop$1()
+//@   property C20 C23
+//@   option nosafety
+//@   ensures @stopsInner stopped
+//@   monitor inner
+//@     ghost stopped = false
+//@     before call storage.Iterator.Stop | storage.TupleKeyIterator.Stop args it : assert it == deref(f).iter
+//@     after call storage.Iterator.Stop | storage.TupleKeyIterator.Stop : stopped = true
+
+//@ func (*ConditionsFilteredTupleKeyIterator).Stop(f)
+//@   property C20 C23
+//@   option nosafety
+//@   ensures @once handed
+//@   monitor once
+//@     ghost handed = false
+//@     after call (*sync.Once).Do args o, fn : handed = pre(o == f.once) && closureOf(fn, "Stop$1") && closureBinds(fn, 0, addrOf(f))
+
+//@ func (*ConditionsFilteredTupleKeyIterator).Stop$1()
+//@   property C20 C23
+//@   option nosafety
+//@   ensures @stopsInner stopped
+//@   monitor inner
+//@     ghost stopped = false
+//@     before call storage.Iterator.Stop | storage.TupleKeyIterator.Stop args it : assert it == deref(f).iter
+//@     after call storage.Iterator.Stop | storage.TupleKeyIterator.Stop : stopped = true
+
+// ------------------------------------------------------------------ C19: no-panic sweep (thin, safety-only contracts)
+// every index and slice expression of these functions is in range for ALL inputs, with no precondition (generated by
+// bin/sweepgen, kept because every obligation discharges; callees without contract are treated as arbitrary)
+//@ func InvariantCacheKey(a0, a1, a2, a3) (r0)
+//@   property C19
+//@   option nosafety
+//@   option safety slice,index
